@@ -29,6 +29,14 @@ claimed = {
          "Clone independence: from an arbitrary message (explicit spare capacity in its chunk slice) every history of K operations (AppendData/AppendComment with symbolic strings, field assignment, Clone) over a family of up to 3 messages is executed symbolically; after each step the encodings of all members other than the one operated on are unchanged. Put never mutating its argument, every publication being a fresh object with the next ID, and earlier publications never changing are asserted in the C08/C09 Put step from every ring state.",
          "Trusted: as C08; spare capacities 0-2 stand for the states append growth can leave.",
          "DESIGN.md §5 C19"),
+ "C15": (E1, "bounded symbolic execution of the real go/ssa + SMT (z3; cvc5 bit-vectors-as-integers for the decimal retry kernel): all messages within the byte bounds x every failing Write call",
+         "Message.WriteTo/MarshalText/String/UnmarshalText, chunk.WriteTo, the FieldParser, bytes.Buffer and strings.Builder are executed from their SSA on messages built through the public API with symbolic strings; the failing Write index and the short count of the fault-injecting writer are symbolic, so z3 decides the exact byte accounting for every fault position at once; the retry encoder/decoder is decided for every int64 duration by cvc5 (--solve-bv-as-int=sum) in the thorough tier.",
+         "Trusted: go/ssa, executor semantics (counterexamples and sample paths replayed natively), z3 4.8.12 and cvc5 1.0.3; string lengths and number of Append calls bounded as in the evidence.",
+         "DESIGN.md §5 C15"),
+ "C02": (E1, "bounded symbolic execution of the real go/ssa + SMT, differential against an independent WHATWG interpreter",
+         "Messages are built through the public API with symbolic strings (all 256 byte values: CR/LF/colon/space/NUL/BOM), encoded by the real WriteTo, concatenated, and decoded both by an independently written WHATWG interpreter in browser mode and by go-sse's real Read (bufio.Scanner and all, from SSA); z3 decides on every path that exactly one event per message with data comes out with the LF-joined lines, type and ID that were set, and that every wire form ends in exactly one blank line with no inner blank line or CR (the lemma that extends the claim to longer concatenations).",
+         "Trusted: as C15; the oracle in harness/sse_oracle.go is part of the claim; one listed known finding (IDs containing NUL).",
+         "DESIGN.md §5 C02"),
 }
 pending = "check not built yet (engine work in progress; will be decided with the same SSA->SMT technique or declared not applicable)"
 na_reasons = {}
